@@ -32,6 +32,18 @@ Theorem C10_initial_clusters_kept :
 Proof. exact initial_clusters. Qed.
 Print Assumptions C10_initial_clusters_kept.
 
+(* an undo: saving again, after any history (other saves included), the assignments the directory
+   started with restores them -- the model has no "unchanged since load, do not rewrite" shortcut
+   (seeded change C10-m1: such a shortcut compared with the load-time snapshot of the INSTANCE) *)
+Theorem C10_undo_restores :
+  forall (classify : string -> cell) (d0 : disk) (pre post : list op),
+  Forall (fun o => op_clusters o = None) post ->
+  clusters_ok (d_clusters d0) (d_rest d0) ->
+  exists l, view (run classify d0 (pre ++ SaveClusters (d_clusters d0) :: post)) = Some l /\
+            v_clusters l = d_clusters d0.
+Proof. intros. apply last_write_clusters; assumption. Qed.
+Print Assumptions C10_undo_restores.
+
 (* ---------------------------------------------------------------------------------------------
    Frame.  No history changes the spike templates, samples and times a fresh model shows, nor
    anything else of the immutable part (raw data, chunking, template channels). *)
@@ -370,3 +382,24 @@ Example C10_ex_lookup :
   | None => None
   end = Some [[[0; 32]; [0; 42]]].
 Proof. vm_compute. reflexivity. Qed.
+
+(* the undo history of the seeded change C10-m1, and the same after a reload *)
+Example C10_ex_undo :
+  option_map v_clusters
+    (view (run CText ex_d0 [SaveClusters [5; 5; 5]; SaveClusters [0; 1; 1]; CloseModel; Reload])) = Some [0; 1; 1] /\
+  option_map v_clusters
+    (view (run CText ex_d0 [SaveClusters [5; 5; 5]; Reload; SaveClusters [7; 7; 7]; SaveClusters [5; 5; 5]; Reload])) = Some [5; 5; 5].
+Proof. vm_compute. split; reflexivity. Qed.
+
+(* a store of exactly one spike (what the loader squeezed before the repair on fix-c10b) and of no spike:
+   loaded with their spike axis, and a look-up through the one-spike store *)
+Example C10_ex_one_spike_store :
+  option_map v_store (view (run CText ex_d0 [SaveSubset [0; 2] 3; Reload; SaveSubset [1] 3; CloseModel; Reload]))
+  = Some (Some (mkstore [1] [[1; -1; -1]] [[[12; 0; 0]; [22; 0; 0]]])) /\
+  option_map v_store (view (run CText ex_d0 [SaveSubset [0; 2] 3; SaveSubset [] 3; Reload]))
+  = Some (Some (mkstore [] [] [])) /\
+  match view (run CText ex_d0 [SaveSubset [1] 3; Reload]) with
+  | Some l => match v_store l with Some st => get_spike_waveforms 0 [1] [0; 1] st 2 | None => None end
+  | None => None
+  end = Some [[[0; 12]; [0; 22]]].
+Proof. vm_compute. repeat split; reflexivity. Qed.
